@@ -126,7 +126,11 @@ def d2_2(ctx):
     o = ctx.folder.eval(vals.get("_or_mask"), c.module) if "_or_mask" in vals else None
     ctx.check(a == 0xFFFF_FFFF_FFFF_FFFF and o == 0, ckey(c.key + ".__init__", "initial-masks"), init, "AND starts all ones (64 bit), OR starts zero", f"initial masks AND={a!r} OR={o!r}: untouched bits would be modified", and_mask=a, or_mask=o)
     ms = vals.get("_mask_size")
-    good = ms is not None and src(ms).replace(" ", "") in ("DataTypes.get(self.data_type).size", "DataTypes[self.data_type].size")
+    good = False
+    if ms is not None:
+        look = [n for n in walk(ms) if (isinstance(n, ast.Call) and attr_path(n.func) == "DataTypes.get" and n.args and attr_path(n.args[0]) == "self.data_type") or (isinstance(n, ast.Subscript) and attr_path(n.value) == "DataTypes" and attr_path(n.slice) == "self.data_type")]
+        size_attr = (isinstance(ms, ast.Attribute) and ms.attr == "size" and look and ms.value is look[0]) or (isinstance(ms, ast.Call) and call_name(ms) == "getattr" and len(ms.args) >= 2 and look and ms.args[0] is look[0] and ctx.folder.eval(ms.args[1], c.module) == "size")
+        good = bool(look) and bool(size_attr)
     ctx.check(good, ckey(c.key + ".__init__", "mask-size"), init, "mask size = size of the tag's integer type", f"mask size is `{src(ms) if ms is not None else None}`, not the tag type's size")
     sb = c.methods["set_bit"]
     bit, val = sb.args.args[1].arg, sb.args.args[2].arg
